@@ -501,7 +501,11 @@ def rule_dp(ctx):
                          and C.unparse(defs[0].func.value) == C.unparse(s.value))
                         or (isinstance(defs[0], ast.Subscript) and is_memo(defs[0].value)
                             and C.unparse(defs[0].slice) == keytxt
-                            and C.unparse(defs[0].value) == C.unparse(s.value)))
+                            and C.unparse(defs[0].value) == C.unparse(s.value))
+                        # `memo[k] if k in memo else None`
+                        or (isinstance(defs[0], ast.IfExp) and isinstance(defs[0].body, ast.Subscript) and is_memo(defs[0].body.value)
+                            and C.unparse(defs[0].body.slice) == keytxt and C.unparse(defs[0].body.value) == C.unparse(s.value)
+                            and isinstance(defs[0].orelse, ast.Constant) and defs[0].orelse.value is None))
                     if not good:
                         ok, why = False, (f"`{cur}` (the entry the new score is compared with) is not the "
                                           f"stored entry of `{keytxt}` in the table that is written")
